@@ -33,6 +33,9 @@ impl Monitor for C16 {
             Op::Convert { .. } => true,
             _ => false,
         };
+        if matches!(c.op, Op::Transfer { tok: Tok::B, from, to, .. } if from == to) {
+            out.count("c16.self_transfer_attempts");
+        }
         if touches_bsei && c.res.ok() {
             let via_allowance = matches!(c.op, Op::Unbond { owner: Some(_), .. } | Op::Convert { owner: Some(_), .. } | Op::TransferFrom { .. } | Op::BurnFrom { .. });
             out.count(&format!("c16.bsei_op.{}{}", c.op.kind(), if via_allowance { ".via_allowance" } else { "" }));
